@@ -52,6 +52,17 @@ struct Written {
     bps: u32,
 }
 
+/// the stream writer takes the same Options as the file writers: rotate through presets and correlation settings
+fn stream_options(id: u64) -> Options {
+    match id % 5 {
+        0 => Options::default(),
+        1 => Options::fast(),
+        2 => Options::best(),
+        3 => Options::default().fast_channel_correlation(true).mid_side(false),
+        _ => Options::default().fast_channel_correlation(true).mid_side(true),
+    }
+}
+
 pub fn run(job: &Value, t: &mut Trace) -> usize {
     let mut n = 0;
     let mut rng = Rng::new(env_seed() ^ 0xC16);
@@ -70,7 +81,7 @@ pub fn run(job: &Value, t: &mut Trace) -> usize {
             let mut out = vec![];
             let res = catch(|| {
                 // one writer per frame: every frame starts a stream of its own (frame number 0)
-                let mut w = FlacStreamWriter::new(&mut out, Options::default());
+                let mut w = FlacStreamWriter::new(&mut out, stream_options(a["id"].as_u64().unwrap_or(0)));
                 w.write(rate, ch, bps, &samples).map_err(|e| e.to_string())
             });
             match res {
@@ -92,7 +103,7 @@ pub fn run(job: &Value, t: &mut Trace) -> usize {
             let mut refused = 0i64;
             let mut accepted: Vec<Value> = vec![];
             let res = catch(|| {
-                let mut w = FlacStreamWriter::new(&mut out, Options::default());
+                let mut w = FlacStreamWriter::new(&mut out, stream_options(a["id"].as_u64().unwrap_or(0)));
                 for (i, f) in frames.iter().enumerate() {
                     // before every frame but the first, calls that must be refused without a trace in the stream
                     if i > 0 {
